@@ -1833,17 +1833,25 @@ class Generator:
                 if t.kind == "ident" and t.text in top and t.text != nm and not known(t.text):
                     if depth >= 4:
                         raise ExtractError(f"N36: constants nested too deeply at `{nm}`")
-                    out.append(expansion(t.text, depth + 1))
+                    x = expansion(t.text, depth + 1)
+                    out.append(x[1] if isinstance(x, tuple) else x)
                 else:
                     out.append(t.text)
+            if ty.startswith("&") and len(out) == 1 and len(code_t[e + 1:-1]) == 1 and code_t[e + 1].kind == "str":
+                return ("LITERAL", out[0])       # a single literal (e.g. a byte-string constant): exactly the literal it names
+            if ty.startswith("&"):
+                return f"({' '.join(out)})"      # a reference (e.g. a byte-string constant): Verus rejects the identity cast; the use site coerces
             return f"(({' '.join(out)}) as {ty})"
 
         for p in pieces:
             if not p.dead and p.tkind == "ident" and re.fullmatch(r"[A-Z][A-Z0-9_]+", p.text) and p.text in top and not known(p.text):
                 nm = p.text
-                p.text = expansion(nm, 0)
+                x = expansion(nm, 0)
                 p.kind = "rw"
-                p.tkind = "rwtext"
+                if isinstance(x, tuple):
+                    p.text, p.tkind = x[1], "str"
+                else:
+                    p.text, p.tkind = x, "rwtext"
                 self.applied.add("N36", file, p.line, f"`{nm}`: module-level const unknown to the template, replaced by its initialiser {p.text}")
 
     def emit_impl_header(self, kv):
@@ -1898,6 +1906,8 @@ class Generator:
             n33_canonical_local(pieces, nm, pat, file, self.applied)
         if "params" in opts and loc["kind"] == "fn":
             n33_params(pieces, opts["params"], file, self.applied)
+        if loc["kind"] == "fn" and not opts.get("trusted"):
+            self.n36_inline_consts(pieces, file)      # before the literal rules, so that a constant's literal is treated like any other
         if opts.get("n19"):
             n19_byte_strings(pieces, file, self.applied)
         if opts.get("n29"):
@@ -1918,8 +1928,6 @@ class Generator:
             n17_mut_self(pieces, file, self.applied)
         if opts.get("pubfields"):
             n3_pubfields(pieces, file, self.applied)
-        if loc["kind"] == "fn" and not opts.get("trusted"):
-            self.n36_inline_consts(pieces, file)
         inj = {}   # piece index -> list of (position 'before'|'after', text, clause info)
 
         def add_inj(idx, pos, block_lines, default_id):
